@@ -92,7 +92,12 @@ def iterations(F, root, source_pred, stop=()):
                 key = ("loop", id(e.body), e.site)
                 if key not in seen:
                     seen.add(key)
-                    out.append(Iteration("loop", e.body, e.site, it, raw, e.chain))
+                    itn = Iteration("loop", e.body, e.site, it, raw, e.chain)
+                    try:
+                        itn.breaks = e.body.early_exits(e.site[0])
+                    except Exception:
+                        itn.breaks = []
+                    out.append(itn)
         elif (e.name in CONSUMERS or e.name in PER_ITEM) and e.args:
             it = strip_load(e.args[0])
             if e.name in ("extend", "from_iter") and len(e.args) > 1:
@@ -192,6 +197,11 @@ def xp1(F, R, only=None):
             continue
         for it in its:
             n += 1
+            if getattr(it, "breaks", None) and name != "keys":
+                R.bad("XP1", "XP1/%s/listing-stops-early" % label, it.where(),
+                      "the walk over the vertex store can be left before the last slot (break / early return): the vertices after that "
+                      "point are not listed")
+                continue
             ok = filter_excludes_absent(F, it)
             how = "filter adaptor"
             if not ok and getattr(it, "consumer", "") == "filter_map" and len(it.result[2]) > 1 and \
@@ -345,7 +355,15 @@ def edge_emission(F, R, rule, fnlabel, b, need_both=True):
     if not eits:
         R.missing(rule, "iteration over a vertex's edges in %s" % fnlabel, b.where())
         return
+    for it in vits:
+        if getattr(it, "breaks", None):
+            R.bad(rule, "%s/%s/vertex-walk-stops-early" % (rule, fnlabel), it.where(),
+                  "the walk over the vertex store can be left before the last slot (break / early return): later vertices are not listed")
     for it in eits:
+        if getattr(it, "breaks", None):
+            R.bad(rule, "%s/%s/edge-walk-stops-early" % (rule, fnlabel), it.where(),
+                  "the walk over a vertex's edges can be left before the last edge (break / early return): the remaining edges are not listed")
+            continue
         dropped = [an for an, _ in it.adaptors if an in ("filter", "skip", "take", "step_by", "skip_while", "take_while",
                                                           "filter_map", "dedup", "unique")]
         if dropped:
@@ -643,6 +661,10 @@ def in2(F, R):
             continue
         done = True
         for it in eits:
+            if getattr(it, "breaks", None):
+                R.bad("IN2", "IN2/Sodg::inspect/edge-walk-stops-early", it.where(),
+                      "the walk over a visited vertex's edges can be left before the last edge: the remaining edges are not listed")
+                continue
             dropped = [an for an, _ in it.adaptors if an in ("filter", "skip", "take", "step_by", "skip_while",
                                                               "take_while", "filter_map", "dedup", "unique")]
             if dropped:
@@ -814,6 +836,9 @@ def in4(F, R):
     if not eits:
         R.missing("IN4", "iteration over the vertex's edges in v_print", b.where())
     for it in eits:
+        if getattr(it, "breaks", None):
+            R.bad("IN4", "IN4/Sodg::v_print/label-walk-stops-early", it.where(), "the walk over the vertex's labels can be left before the last one")
+            continue
         src = strip_load(it.source)
         v = vertex_of(src[1])
         dropped = [an for an, _ in it.adaptors if an in ("filter", "skip", "take", "step_by", "skip_while", "take_while",
